@@ -495,6 +495,17 @@ func (s *c17MgrSM) doneOp(rt *rapid.T) {
 	g := s.grants[i]
 	s.grants = append(s.grants[:i], s.grants[i+1:]...)
 	res := rapid.SampledFrom([]result{ResultNoop, ResultCooldownPeer, ResultCooldownPeer, ResultCooldownPeer, ResultBlacklistPeer, ResultBlacklistPeer}).Draw(rt, "done.result")
+	if s.bl && res != ResultBlacklistPeer {
+		// bias towards the interesting order: blacklist a peer that sits in a still unconfirmed pool
+		for h := range s.hashes {
+			if p := s.hp[h]; p != nil && !p.validated && p.present(g.id) {
+				if rapid.Bool().Draw(rt, "done.blacklist-unconfirmed-announcer") {
+					res = ResultBlacklistPeer
+				}
+				break
+			}
+		}
+	}
 	s.logf("done(grant #%d of Peer(h%d), %s)", g.n, g.h, res)
 	rt.Logf("grant #%d is peer %s (may be from: hash pool=%v, general pool=%v)", g.n, string(g.id), g.srcHash, g.srcGen)
 	s.env.setClock(s.clk)
@@ -1007,7 +1018,7 @@ func TestVerifC17_ManagerModel(t *testing.T) {
 		for _, l := range []string{"blacklist-then-validate", "cooldown-remove-add", "blacklisted", "gc-blacklisted-hash",
 			"announce-unconfirmed", "request-woken-by-later-event", "request-cancelled"} {
 			if s.labels[l] {
-				labels = append(labels, l)
+				labels = append(labels, "mgr:"+l)
 			}
 		}
 		for _, k := range []string{"grants", "cooldowns", "expiries", "peer_immediate", "peer_woken", "peer_cancelled",
